@@ -6,10 +6,12 @@ from pyvc.sym import (VInt, VBool, VStr, VRef, VRec, VList, VTuple, INT, BOOL, S
                       tobool, toint, tostr, fresh_name, qforall)
 from contracts.common import add_common, WF, wf_theory, preorder_facts
 
-VERIFY = ["trees.transitions.topdown"]
+VERIFY = ["trees.transitions.topdown", "trees.transitions._inorder", "trees.transitions.inorder"]
 SHARDS = {"trees.transitions.topdown": 4}
 TRUSTED = ["contracts of trees.preorder / trees.children / trees.terminals used at call sites; the three functions are verified under C19 (preorder against the recursive definition of P, the other two against characterisations)"]
-ASSUMPTIONS = ["Transition objects are modelled as records with the field name"]
+ASSUMPTIONS = ["Transition objects are modelled as records with the field name",
+               "io_def: the in-order sequence IO is defined by recursion over the ordered children (segment lengths, prefix "
+               "sums; monotonicity stated); validated on enumerated trees by bounded/c10.py clause io_definition"]
 
 S_ = z3.StringVal
 
@@ -28,6 +30,7 @@ def action(H, x):
 
 def build(reg):
     add_common(reg)
+    add_inorder(reg)
 
     def requires(S, tree):
         H = S.H
@@ -75,4 +78,107 @@ def build(reg):
         ensures={"reversed_preorder_of_node_actions": post},
         result_type=TTuple(TList(TTuple(STR, STR)), TList(TRANS)),
         loops={0: dict(inv=inv, types={"transitions": TList(TRANS)})},
+    ))
+
+
+# ----------------------------------------------------------------------------------------------------------------------
+# in-order system: _inorder(x) == IO(x), the sequence defined by recursion over the ordered children c_0 .. c_{m-1} of x
+#     IO(x) = seg(c_0) ++ ["PJ-" + label(x)] ++ seg(c_1) ++ ... ++ seg(c_{m-1}) ++ ["REDUCE"]
+#     seg(c) = ["SHIFT"] for a token, IO(c) for a constituent
+# ----------------------------------------------------------------------------------------------------------------------
+def _io_fns(H):
+    args = H._shape_args() + [H.f["none_label"], H.f["val_label"]]
+    sorts = [a.sort() for a in args]
+    I, Sx = z3.IntSort(), z3.StringSort()
+    flen = z3.Function("IO_len", *(sorts + [I, I]))
+    fel = z3.Function("IO_el", *(sorts + [I, I, Sx]))
+    fss = z3.Function("IO_ss", *(sorts + [I, I, I]))
+    return (lambda x: flen(*(args + [x])), lambda x, i: fel(*(args + [x, i])), lambda x, k: fss(*(args + [x, k])))
+
+
+def io_def(H):
+    """definition of IO (length, elements) through the segment lengths SL and their prefix sums SS (a definition by
+    well-founded recursion over the tree; the last clause, monotone prefix sums, follows by induction and is stated
+    because the solver does no induction).  Validated on enumerated trees by bounded/c10.py (clause io_definition)."""
+    iolen, ioel, ss = _io_fns(H)
+    x, k, j, m = (z3.Int("io_" + c) for c in "xkjm")
+    wf = lambda r: tobool(WF(H, VRef(r)))
+    cel = lambda r, i: H.ochildren(VRef(r)).get(i).t
+    nch = H.nchild_t
+    sl = lambda c: z3.If(nch(c) == 0, 1, iolen(c))
+    lab = lambda r: z3.If(z3.Select(H.f["none_label"], r), S_("None"), z3.Select(H.f["val_label"], r))
+    return VBool(z3.And(
+        qforall([x], z3.Implies(z3.And(wf(x), nch(x) > 0), z3.And(
+            ss(x, 0) == 0, iolen(x) == ss(x, nch(x)) + 2, iolen(x) >= 3,
+            ioel(x, ss(x, 1)) == z3.Concat(S_("PJ-"), lab(x)),
+            ioel(x, iolen(x) - 1) == S_("REDUCE"))), [[wf(x), iolen(x)]]),
+        qforall([x, k], z3.Implies(z3.And(wf(x), 0 <= k, k < nch(x)), z3.And(
+            ss(x, k) >= 0, ss(x, k + 1) == ss(x, k) + sl(cel(x, k)), sl(cel(x, k)) >= 1)), [[wf(x), cel(x, k)]]),
+        # the segment of child k starts at SS(x, k), shifted by one behind the PJ for k >= 1
+        qforall([x, k], z3.Implies(z3.And(wf(x), 0 <= k, k < nch(x), nch(cel(x, k)) == 0),
+                                   ioel(x, ss(x, k) + z3.If(k >= 1, 1, 0)) == S_("SHIFT")), [[wf(x), cel(x, k)]]),
+        qforall([x, k, j], z3.Implies(z3.And(wf(x), 0 <= k, k < nch(x), nch(cel(x, k)) > 0, 0 <= j, j < iolen(cel(x, k))),
+                                      ioel(x, ss(x, k) + z3.If(k >= 1, 1, 0) + j) == ioel(cel(x, k), j)),
+                [[wf(x), ioel(cel(x, k), j)]]),
+        qforall([x, k, m], z3.Implies(z3.And(wf(x), 0 <= k, k <= m, m <= nch(x)), ss(x, k) <= ss(x, m)),
+                [[wf(x), ss(x, k), ss(x, m)]]),
+    ))
+
+
+def add_inorder(reg):
+    from contracts.common import wf_theory_tokens
+    from pyvc.sym import VInt
+    TRANS = TRec(_cls="trees.transitions.Transition", name=STR)
+
+    def requires(S, tree):
+        H = S.H
+        x = z3.Int(fresh_name("rx"))
+        return conj(WF(H, tree), tree != None, wf_theory(H), wf_theory_tokens(H), io_def(H),
+                    VBool(H.nchild_t(tree.t) > 0),
+                    VBool(z3.ForAll([x], z3.Implies(tobool(WF(H, VRef(x))), H.has(VRef(x), "label").t))))
+
+    def is_prefix(H, tree, tr, upto):
+        iolen, ioel, ss = _io_fns(H)
+        a = z3.Int(fresh_name("ia"))
+        return qforall([a], z3.Implies(z3.And(0 <= a, a < upto),
+                                       tostr(tr.get(a).fields["name"]) == ioel(tree.t, a)),
+                       [tostr(tr.get(a).fields["name"])])
+
+    def inv(S):
+        H, tree, tr, it = S.H, S.tree, S.transitions, toint(S.it)
+        iolen, ioel, ss = _io_fns(H)
+        return conj(VBool(tr.n == 1 + ss(tree.t, it + 1)), VBool(is_prefix(H, tree, tr, tr.n)))
+
+    def post(S, tree, result):
+        H = S.H
+        iolen, ioel, ss = _io_fns(H)
+        return VBool(z3.And(result.n == iolen(tree.t), is_prefix(H, tree, result, result.n)))
+
+    reg.add(Contract(
+        target="trees.transitions._inorder", prop="C10", args=dict(tree=REF),
+        requires=requires,
+        ensures={"the_recursively_defined_in_order_sequence": post},
+        result_type=TList(TRANS),
+        decreases=lambda S, tree: S.H.hgt(tree),
+        loops={0: dict(inv=inv, types={"transitions": TList(TRANS)})},
+        solver_hints={"inv0.keep": {"cli_s": 30}, "post.": {"cli_s": 30}, "inv0.init": {"cli_s": 30}},
+    ))
+
+    def post_outer(S, tree, result):
+        H = S.H
+        iolen, ioel, ss = _io_fns(H)
+        sent, seq = result.items
+        return VBool(z3.And(seq.n == iolen(tree.t), is_prefix(H, tree, seq, seq.n), sent.n == H.terms(tree).n))
+
+    def requires_outer(S, tree):
+        H = S.H
+        x = z3.Int(fresh_name("rx"))
+        return conj(requires(S, tree),
+                    VBool(z3.ForAll([x], z3.Implies(tobool(WF(H, VRef(x))), H.has(VRef(x), "word").t))))
+
+    reg.add(Contract(
+        target="trees.transitions.inorder", prop="C10", args=dict(tree=REF),
+        requires=requires_outer,
+        ensures={"sentence_and_in_order_sequence": post_outer},
+        result_type=TTuple(TList(TTuple(STR, STR)), TList(TRANS)),
     ))
